@@ -700,7 +700,12 @@ class Interp:
             header = 'for %s in %s' % (ast.unparse(node.target), ast.unparse(node.iter))
         else:
             header = 'while %s' % ast.unparse(node.test)
-        matched = [lc for lc in self.loops.values() if getattr(lc, 'match', None) and lc.match in header]
+        def _m(lc):
+            m = getattr(lc, 'match', None)
+            if not m:
+                return False
+            return any(x in header for x in ((m,) if isinstance(m, str) else m))
+        matched = [lc for lc in self.loops.values() if _m(lc)]
         if matched:
             return k, matched[0]
         lc = self.loops.get(k)
@@ -788,6 +793,7 @@ class Interp:
             raise Unsupported('for loop #%d: iterable %r has no symbolic sequence interface' % (k, it))
         label = lc.label or 'loop%d' % k
         n = it.seq_len(ctx)
+        ctx.loop_iterable = it
         ctx.inv_mode = 'goal'
         ctx.oblige('%s:init' % label, lc.invariant(ctx, env, z3.IntVal(0)), info={'line': s.lineno})
         for nm in list(assigned_names(s.body)) + list(lc.extra_modifies):
@@ -1127,6 +1133,24 @@ class LazyGen:
         # eager expansion; element evaluation order equals Python's for a fully consumed generator
         return [self.interp.expr(self.node.elt, e) for e in self.interp.comp_envs(self.node.generators, self.env)]
 
+    def as_mapped(self, ctx):
+        """(elt for target in SEQ) over a symbolic sequence -> MappedSeq, else None."""
+        node, interp = self.node, self.interp
+        if len(node.generators) != 1 or node.generators[0].ifs:
+            return None
+        g = node.generators[0]
+        src = interp.expr(g.iter, self.env)
+        if not hasattr(src, 'seq_len') or isinstance(src, (list, tuple)):
+            self._src_cache = src
+            return None
+        from .bytesdom import MappedSeq
+
+        def fn(x):
+            e2 = Env(self.env)
+            interp.assign(g.target, x, e2)
+            return interp.expr(node.elt, e2)
+        return MappedSeq(src, fn, 'genexp')
+
     def lazy_items(self, ctx):
         """Yield element thunks one at a time for single-generator comprehensions."""
         node, interp = self.node, self.interp
@@ -1167,8 +1191,30 @@ def _lazy_any(ctx, it):
     return False
 
 
+def _sorted(ctx, it, **kw):
+    from .bytesdom import SymSeq, py_sorted_sym
+    if isinstance(it, LazyGen):
+        m = it.as_mapped(ctx)
+        if m is not None:
+            return py_sorted_sym(ctx, m, **kw)
+    if isinstance(it, SymSeq):
+        return py_sorted_sym(ctx, it, **kw)
+    return ops.py_sorted(ctx, it, **kw)
+
+
+def _map(ctx, f, *its):
+    from .bytesdom import SymSeq, MappedSeq
+    if len(its) == 1 and hasattr(its[0], 'seq_len') and not isinstance(its[0], (list, tuple)):
+        interp = ctx.interp
+        return MappedSeq(its[0], lambda x: interp.call(f, [x], {}), 'map')
+    ls = [ops.iterate(ctx, it) for it in its]
+    return [ctx.interp.call(f, list(a), {}) for a in zip(*ls)]
+
+
 ops.BUILTINS['all'] = _lazy_all
 ops.BUILTINS['any'] = _lazy_any
+ops.BUILTINS['sorted'] = _sorted
+ops.BUILTINS['map'] = _map
 
 
 def module_level_names(tree):
